@@ -210,6 +210,34 @@ def _model_job(job) -> List[Dict[str, Any]]:
     return out
 
 
+def bytecode_self_stores(prog: Program) -> Dict[str, set]:
+    """Independent implementation of R14.1s on bytecode: the modules are compiled (never executed) and every
+    STORE_ATTR / DELETE_ATTR whose receiver is argument 0, and every STORE_GLOBAL / DELETE_GLOBAL, is collected per code
+    object (qualified name)."""
+    import dis
+
+    out: Dict[str, set] = {}
+
+    def walk(code, qual, modname):
+        ins = list(dis.get_instructions(code))
+        first = code.co_varnames[0] if code.co_argcount else None
+        for i, x in enumerate(ins):
+            if x.opname in ("STORE_ATTR", "DELETE_ATTR") and i > 0:
+                prev = ins[i - 1]
+                if prev.opname in ("LOAD_FAST", "LOAD_FAST_CHECK", "LOAD_DEREF") and prev.argval == first and first is not None:
+                    out.setdefault(f"{modname}::{qual}", set()).add(("attr", x.argval))
+            elif x.opname in ("STORE_GLOBAL", "DELETE_GLOBAL"):
+                out.setdefault(f"{modname}::{qual}", set()).add(("global", x.argval))
+        for c in code.co_consts:
+            if hasattr(c, "co_code"):
+                walk(c, f"{qual}.{c.co_name}" if qual else c.co_name, modname)
+
+    for mi in prog.modules.values():
+        code = compile(mi.source, mi.path, "exec")
+        walk(code, "", mi.name)
+    return out
+
+
 def run(prog: Program, rep: Report, tier: str = "quick") -> None:
     roles = prog.roles()
     rep.explanation = (
@@ -236,6 +264,33 @@ def run(prog: Program, rep: Report, tier: str = "quick") -> None:
                 continue
             seen.add(key)
             rep.add(Instance(d["rule"], d["verdict"], d["module"], d["function"], d["construct"], d["line"], d.get("message", ""), d.get("detail", {})))
+    # ---- bytecode cross-check of the syntactic rule (independent implementation, compile + dis, nothing is executed)
+    try:
+        bc = bytecode_self_stores(prog)
+        ast_viol = {(i.module, i.function) for i in rep.instances if i.rule == "R14.1s" and i.verdict == "VIOLATED"}
+        ast_ok = {(i.module, i.function) for i in rep.instances if i.rule == "R14.1s" and i.verdict == "HOLDS"}
+        model_classes = {r.model.name for r in roles}
+        disagreements = []
+        for key, stores in bc.items():
+            mod, _, qual = key.partition("::")
+            cls = qual.split(".")[0]
+            fn = qual.replace(".<locals>", "")
+            if cls not in model_classes or qual.endswith(".__init__"):
+                continue
+            mine = (mod, qual) in ast_viol or any(m == mod and f.replace(".<locals>", "") == fn for m, f in ast_viol)
+            reach = (mod, qual) in ast_ok or mine
+            if reach and not mine:
+                disagreements.append(f"{key}: bytecode shows {sorted(stores)} but the AST rule reported nothing")
+        for k in ast_viol:
+            if not any(key.partition("::")[0] == k[0] and key.partition("::")[2].replace(".<locals>", "") == k[1].replace(".<locals>", "") for key in bc):
+                disagreements.append(f"{k[0]}::{k[1]}: the AST rule reported a store that the bytecode does not contain")
+        if disagreements:
+            for dmsg in disagreements[:5]:
+                rep.undecided("R14.1b", module="*", function="bytecode cross-check", construct=dmsg[:150], message="AST and bytecode implementations of the self-store rule disagree: " + dmsg)
+        else:
+            rep.holds("R14.1b", module="*", function="bytecode cross-check", construct="AST and bytecode implementations of the receiver-store rule agree", detail={"code_objects_with_stores": len(bc)})
+    except Exception as e:
+        rep.undecided("R14.1b", module="*", function="bytecode cross-check", construct="bytecode cross-check", message=f"{type(e).__name__}: {e}")
     n = len(roles)
     rep.floor("R14.1", 4 * n)
     rep.floor("R14.2", 4 * n)
